@@ -307,11 +307,21 @@ func H_fault_r() {
 	failAt := vfChoice("failAt", ref.calls)
 	vfNote("failAt", failAt)
 	src := &hSource{data: frame, failAt: failAt, mode: vfParam("rsrc")}
+	injected := hErrInjected
+	if vfParam("ekind") == 1 {
+		// the failure wraps io.EOF: it must still come back as that failure, not as the end
+		src.failErr = hErrWrapsEOF
+		injected = hErrWrapsEOF
+	}
 	zr := NewReader(src)
 	out, clean := hDrain(zr, vfParam("rb"), hBlockLen(o))
 	vfAssert("rfault-not-clean", !clean)
-	vfAssert("rfault-is-the-injected-error", hLastErr != nil && errors.Is(hLastErr, hErrInjected))
-	vfAssert("rfault-never-eof", hLastErr != io.EOF && !errors.Is(hLastErr, io.EOF))
+	vfAssert("rfault-is-the-injected-error", hLastErr != nil && errors.Is(hLastErr, injected))
+	if vfParam("ekind") == 0 {
+		vfAssert("rfault-never-eof", hLastErr != io.EOF && !errors.Is(hLastErr, io.EOF))
+	} else {
+		vfAssert("rfault-never-eof", hLastErr != io.EOF)
+	}
 	vfAssert("rfault-delivered-is-prefix", hIsPrefix(out, in))
 	vfReach("end")
 }
